@@ -99,10 +99,27 @@ type forestOpts struct {
 	distinctRoots bool
 	maxDepth      int
 	maxFan        int
+	shapes        bool // allow deep chains and wide fans now and then
 }
 
 func genTree(c *Ctx, rootName string, o forestOpts) *MNode {
 	root := &MNode{Name: rootName}
+	if o.shapes && c.Chance(1, 12) {
+		// unusual shapes: a deep chain or a wide fan
+		if c.Draw(2) == 0 {
+			n := root
+			for i := 0; i < 8+c.Draw(24); i++ {
+				k := &MNode{Name: genName(c, o.alpha)}
+				n.Kids = []*MNode{k}
+				n = k
+			}
+		} else {
+			for i := 0; i < 6+c.Draw(10); i++ {
+				root.Kids = append(root.Kids, &MNode{Name: genName(c, o.alpha) + strings.Repeat("'", i)})
+			}
+		}
+		return root
+	}
 	type slot struct {
 		n     *MNode
 		depth int
@@ -173,6 +190,7 @@ type Spelling struct {
 	BlankEvery  int // 0: none; k: a blank line drawn with chance 1/k after each line
 	SharpRoots  bool
 	LeadBlank   int // number of leading blank lines
+	Remention   bool // a node with >= 2 children may be written twice among its siblings, each time with part of its children (equally named siblings are one node)
 }
 
 func genSpelling(c *Ctx, extended bool) Spelling {
@@ -200,6 +218,9 @@ func genSpelling(c *Ctx, extended bool) Spelling {
 	}
 	if c.Chance(1, 4) {
 		s.BlankEvery = 2 + c.Draw(4)
+	}
+	if c.Chance(1, 6) {
+		s.Remention = true
 	}
 	if extended {
 		switch c.Pick(4, 2, 2, 2) {
@@ -246,8 +267,25 @@ func spell(c *Ctx, forest []*MNode, s Spelling) (doc []byte, parts [][]byte) {
 					lines = append(lines, "  ")
 				}
 			}
+			// a child with >= 2 children may be split over two mentions: first mention with the
+			// first part of its children, then (after the later siblings) again with the rest
+			type later struct {
+				n    *MNode
+				from int
+			}
+			var pending []later
 			for _, k := range n.Kids {
+				if s.Remention && depth >= 1 && len(k.Kids) >= 2 && c.Draw(2) == 0 {
+					cut := 1 + c.Draw(len(k.Kids)-1)
+					part := &MNode{Name: k.Name, Kids: k.Kids[:cut]}
+					walk(part, depth+1)
+					pending = append(pending, later{k, cut})
+					continue
+				}
 				walk(k, depth+1)
+			}
+			for _, p := range pending {
+				walk(&MNode{Name: p.n.Name, Kids: p.n.Kids[p.from:]}, depth+1)
 			}
 		}
 		walk(root, 1)
